@@ -55,14 +55,47 @@ Proof.
   intros H. unfold Rpowf. destruct (Rlt_dec 0 x); [lra|]. destruct (Rlt_dec x 0); [|contradiction].
   rewrite is_intR_IZR, Int_part_IZR. reflexivity.
 Qed.
-Definition pow_dom (x p : R) : Prop := 0 < x \/ (x < 0 /\ is_intR p = true).
+(* where powf is differentiable in its base AND the coded derivative p * x^(p-1) is finite:
+   positive base; negative base with an integer exponent; base 0 with an exponent 0, 1, 2, 3, ... (for exponent 0 the code multiplies by 0.0 without
+   evaluating x^(-1)) *)
+Definition pow_dom (x p : R) : Prop :=
+  0 < x \/ (x < 0 /\ is_intR p = true) \/ (x = 0 /\ exists n : nat, p = INR n).
 
+Lemma INR_IZR n : INR n = IZR (Z.of_nat n).
+Proof. apply INR_IZR_INZ. Qed.
+Lemma Rpowf_0 y : Rpowf y 0 = 1.
+Proof.
+  unfold Rpowf. destruct (Rlt_dec 0 y) as [H|H].
+  - unfold Rpower. rewrite Rmult_0_l. apply exp_0.
+  - destruct (Rlt_dec y 0) as [H2|H2].
+    + change 0 with (IZR 0) at 1 2 3. rewrite is_intR_IZR, Int_part_IZR. cbn [Z.even].
+      unfold Rpower. rewrite Rmult_0_l, exp_0. ring.
+    + destruct (Req_EM_T 0 0); [reflexivity|congruence].
+Qed.
+(* natural exponents n >= 1: powf is the ordinary power for EVERY base, 0 and negatives included *)
+Lemma Rpowf_nat y n : (1 <= n)%nat -> Rpowf y (INR n) = y ^ n.
+Proof.
+  intros Hn. destruct (Rtotal_order 0 y) as [H|[H|H]].
+  - rewrite Rpowf_pos by exact H. apply Rpower_pow. exact H.
+  - subst. unfold Rpowf. destruct (Rlt_dec 0 0); [lra|]. destruct (Rlt_dec 0 0); [lra|].
+    destruct (Req_EM_T (INR n) 0) as [E|E].
+    + exfalso. assert (0 < INR n) by (apply lt_0_INR; lia). lra.
+    + destruct n; [lia|]. cbn. ring.
+  - rewrite INR_IZR. rewrite Rpowf_neg by exact H. rewrite <- INR_IZR.
+    rewrite Rpower_pow by lra.
+    destruct (Z.even (Z.of_nat n)) eqn:E.
+    + rewrite Z.even_spec in E. destruct E as [k E]. assert (n = (2 * Z.to_nat k)%nat) by lia. subst n.
+      rewrite !pow_mult. replace ((- y) ^ 2) with (y ^ 2) by ring. ring.
+    + assert (O : Z.odd (Z.of_nat n) = true) by (rewrite <- Z.negb_even, E; reflexivity).
+      rewrite Z.odd_spec in O. destruct O as [k O]. assert (n = (2 * Z.to_nat k + 1)%nat) by lia. subst n.
+      rewrite !pow_add, !pow_mult. replace ((- y) ^ 2) with (y ^ 2) by ring. cbn. ring.
+Qed.
 Lemma is_derive_Rpower_l p x : 0 < x -> is_derive (fun y => Rpower y p) x (p * Rpower x (p - 1)).
 Proof. intros H. apply is_derive_Reals. apply derivable_pt_lim_power. exact H. Qed.
 
 Lemma is_derive_Rpowf p x : pow_dom x p -> is_derive (fun y => Rpowf y p) x (p * Rpowf x (p - 1)).
 Proof.
-  intros [H|[H I]].
+  intros [H|[[H I]|[H [n Hp]]]].
   - apply dR_ext_loc with (f := fun y => Rpower y p).
     + generalize (locally_pos (fun y => y) x (derive_continuous _ _ _ (dR_id x)) H).
       apply filter_imp. intros y Hy. symmetry. apply Rpowf_pos. exact Hy.
@@ -79,6 +112,20 @@ Proof.
         -- apply dR_opp. apply dR_id.
       * rewrite <- E1, <- E. replace (k - 1)%Z with (Z.pred k) by lia. rewrite Z.even_pred.
         rewrite <- Z.negb_even. destruct (Z.even k); cbn; ring.
+  - (* base 0, natural exponent n: the function is y ^ n everywhere *)
+    subst x p. destruct n as [|n].
+    + (* exponent 0: constant 1 *)
+      apply dR_ext_loc with (f := fun _ => 1).
+      * apply filter_forall. intros y. symmetry. apply Rpowf_0.
+      * evar_last; [apply dR_const|cbn; ring].
+    + apply dR_ext_loc with (f := fun y => y ^ (S n)).
+      * apply filter_forall. intros y. symmetry. apply Rpowf_nat. lia.
+      * evar_last.
+        -- apply (is_derive_pow (fun y => y) (S n) 0 1). apply dR_id.
+        -- destruct n as [|m].
+           ++ cbn. replace (1 - 1) with 0 by ring. rewrite Rpowf_0. ring.
+           ++ replace (INR (S (S m)) - 1) with (INR (S m)) by (rewrite (S_INR (S m)); ring).
+              rewrite Rpowf_nat by lia. cbn [pred Nat.pred]. ring.
 Qed.
 
 Lemma Rpowf_2 x : Rpowf x 2 = x * x.
@@ -119,7 +166,7 @@ Qed.
 Lemma pow_dom_m1 x : x <> 0 -> pow_dom x (-1).
 Proof.
   intros N. destruct (Rtotal_order 0 x) as [H|[H|H]]; [left; auto|congruence|].
-  right. split; auto. change (-1) with (IZR (-1)). apply is_intR_IZR.
+  right. left. split; auto. change (-1) with (IZR (-1)). apply is_intR_IZR.
 Qed.
 
 (* ------------------------------------------------------------------ normal density / cdf *)
